@@ -99,7 +99,7 @@ def replay_legacy_add(model, obligation):
     from cassandra.pool import HostConnectionPool
     from contracts.native.c12 import Conn
     fails = []
-    for when, remembered in (('while-selecting', 'ks_old'), ('while-opening', 'ks_old'), ('never', None)):
+    for when, remembered in (('while-selecting', 'ks_old'), ('while-opening', 'ks_old'), ('never', None), ('never', 'stale')):
         lp = HostConnectionPool.__new__(HostConnectionPool)
         done = []
 
@@ -137,3 +137,67 @@ def replay_legacy_add(model, obligation):
         if got != [want]:
             fails.append('legacy pool (remembered keyspace %r), switch %s: the published connection is on %r, the session on %r' % (remembered, when, got, sess.keyspace))
     return {'reproduced': bool(fails), 'detail': '; '.join(fails[:2]) or 'the added connection follows the session keyspace'}
+
+
+def replay_misc(model, obligation):
+    """the USE handler of a real Connection, the completion of the USE request, and a pool created after the switch"""
+    cl = rf.load_cluster()
+    fails = []
+    if '/set_keyspace_async-result/' in obligation:
+        from cassandra.connection import Connection
+        from cassandra.protocol import ResultMessage, InvalidRequestException
+        for kind in ('result', 'invalid', 'other'):
+            c = Connection.__new__(Connection)
+            c.lock, c.in_flight, c.max_request_id, c.keyspace, c.endpoint = threading.RLock(), 0, 100, 'old', 'ep'
+            c.get_request_id = lambda: 9
+            sent, dead, done = [], [], []
+            c.send_msg = lambda q, rid, cb, **kw: sent.append((q, rid, cb))
+            c.defunct = lambda exc: dead.append(exc) or exc
+            c.set_keyspace_async('newks', lambda conn, err: done.append(err))
+            if len(sent) != 1:
+                fails.append('set_keyspace_async sent %d messages' % len(sent))
+                continue
+            if kind == 'result':
+                reply = ResultMessage.__new__(ResultMessage)
+                reply.kind = 3
+            elif kind == 'invalid':
+                reply = InvalidRequestException(0x2200, 'no such keyspace', None)
+            else:
+                reply = Exception('weird')
+            sent[0][2](reply)
+            ok = len(done) == 1 and ((kind == 'result' and c.keyspace == 'newks' and done == [None]) or
+                                     (kind == 'invalid' and c.keyspace == 'old' and done[0] is not None and not dead) or
+                                     (kind == 'other' and c.keyspace == 'old' and len(dead) == 1 and done[0] is dead[0]))
+            if not ok:
+                fails.append('USE answered with %s: keyspace %r, callback got %r, defunct calls %d' % (kind, c.keyspace, done, len(dead)))
+    elif '/_set_keyspace_completed/' in obligation:
+        from cassandra.connection import ConnectionException
+        for errors in ({}, {'h': ['e']}):
+            log = []
+            h1 = rf.Host('h1')
+            f = rf.future(cl, rf.Session(log, {h1: rf.Pool(log, h1)}), [h1])
+            got = []
+            f.add_callbacks(lambda r: got.append(('result', r)), lambda e: got.append(('error', e)))
+            f._set_keyspace_completed(errors)
+            ok = len(got) == 1 and ((not errors and got[0] == ('result', None)) or (errors and got[0][0] == 'error' and isinstance(got[0][1], ConnectionException)))
+            if not ok:
+                fails.append('pools reported %r for the USE: the request completed with %r' % (errors, got))
+    elif '/new-pool-gets-session-keyspace/' in obligation:
+        from cassandra.pool import HostConnection
+        from cassandra.policies import HostDistance
+        from contracts.native.c12 import Conn
+        opened = []
+
+        def factory(ep, **kw):
+            opened.append(Conn('new'))
+            opened[-1]._on_orphaned_stream_released = None
+            return opened[-1]
+        class Sess(object):       # the pool keeps a weak proxy of its session
+            keyspace = 'current'
+            cluster = types.SimpleNamespace(connection_factory=factory, signal_connection_failure=lambda *a, **k: False)
+        sess = Sess()
+        hp = HostConnection(types.SimpleNamespace(endpoint='ep'), HostDistance.LOCAL, sess)
+        if hp._connection is None or hp._connection.keyspace != 'current' or hp._keyspace != 'current':
+            fails.append('a pool created while the session is on keyspace "current": its connection is on %r, the pool remembers %r'
+                         % (getattr(hp._connection, 'keyspace', None), hp._keyspace))
+    return {'reproduced': bool(fails), 'detail': '; '.join(fails[:2]) or 'no disagreement'}
